@@ -750,6 +750,10 @@ static void reb_integrator_trace_step(struct reb_simulation* const r){
 
                     double* y;
                     while(r->t < t_needed && fabs(r->dt/old_dt)>1e-14 ){
+                        // In case of overshoot
+                        if (r->t + r->dt > t_needed){
+                            r->dt = t_needed - r->t;
+                        }
                         if (!nbody_ode || nbody_ode->length != 6*r->N){
                             if (nbody_ode){
                                 reb_ode_free(nbody_ode);
